@@ -108,13 +108,16 @@ Proof. vm_compute. repeat split; reflexivity. Qed.
 Example C29_refuted_202 :
   refuted (self_n [(1, 1)] [11] [] [] (only_names [] [] []) [NImpSetName 0 7]) 202.
 Proof. vm_compute. repeat split; reflexivity. Qed.
-(* D06 / D26: a deleted item that survives in the function vector shifts the positions body names are emitted under *)
-Example C29_refuted_D06 :
-  refuted (self_n [] [11; 12] [] [] (only_names [(0, 1); (1, 2)] [] []) [NEdit (AddImport SF 21) None; NEdit (Delete SF 2) None]) 6.
+(* former D06 / D26 (a deleted item that survived in the function vector shifted the positions body names are
+   emitted under; repaired: recalculate_ids drops every deleted item): the witnesses now satisfy the property *)
+Example C29_former_D06_witness_holds :
+  repaired (self_n [] [11; 12] [] [] (only_names [(0, 1); (1, 2)] [] []) [NEdit (AddImport SF 21) None; NEdit (Delete SF 2) None])
+           [(0, 1); (1, 2)].
 Proof. vm_compute. repeat split; reflexivity. Qed.
-Example C29_refuted_D26 :
-  refuted (self_n [(0, 1); (0, 2)] [11] [] [] (only_names [] [] [])
-             [NEdit (ImportToLocal 0 21) None; NEdit (Delete SF 0) None; NEdit (ImportToLocal 1 22) None]) 26.
+Example C29_former_D26_witness_holds :
+  repaired (self_n [(0, 1); (0, 2)] [11] [] [] (only_names [] [] [])
+             [NEdit (ImportToLocal 0 21) None; NEdit (Delete SF 0) None; NEdit (ImportToLocal 1 22) None])
+           [(1, 1000002)].
 Proof. vm_compute. repeat split; reflexivity. Qed.
 
 (* ---- non-vacuity ---- *)
